@@ -32,11 +32,11 @@ Theorem vip_allocator s : CReach s ->
   forall n ip m, vips s !! n = Some (ip, m) -> 0 < ip <= counter s /\ ip ∉ free s.
 Proof. intros H. apply (CReach_INV s H). Qed.
 
-(* the virtual IP a connect-native instance advertises is its service's current assignment *)
-Theorem vip_advertised_native s : CReach s ->
+(* the virtual IP any instance advertises is the current assignment of the service it is indexed
+   under in the connect index (its own name if connect-native, its destination if a sidecar proxy) *)
+Theorem vip_advertised s : CReach s ->
   forall k v ip, services s !! k = Some v -> sv_vip v = Some ip ->
-    sv_native v = true -> sv_kind v ≠ KProxy ->
-    exists m, vips s !! sv_name v = Some (ip, m).
+    exists n m, connect_name v = Some n /\ vips s !! n = Some (ip, m).
 Proof. intros H. apply (CReach_INV s H). Qed.
 
 From Verif Require Import Catalog.Orphans.
